@@ -376,7 +376,7 @@ def repo_idioms(ctx, rule, modules):
     new_unresolved_names(ctx, rule, modules)
 
 
-def thin_wrapper(ctx, rule, qual, lib_call_suffix, arg_map, returns=True):
+def thin_wrapper(ctx, rule, qual, lib_call_suffix, arg_map, returns=True, kw_names=None):
     """a crypto wrapper must hand its arguments to the library primitive unchanged and let the primitive's verdict through:
     one library call `<...>.<suffix>(args)` with the arguments in the mapped order, returned directly (or called as the last
     statement), and no exception handler around it that does not re-raise"""
@@ -387,6 +387,11 @@ def thin_wrapper(ctx, rule, qual, lib_call_suffix, arg_map, returns=True):
     c = calls[0]
     want = [fi.params[i] for i in arg_map]
     got = [norm(a) for a in c.args[:len(want)]]
+    if kw_names and c.keywords and not any(k.arg is None for k in c.keywords) and not any(isinstance(a, ast.Starred) for a in c.args):
+        # the primitive's own parameter names, as the library documents them: same binding as by position
+        byname = {k.arg: norm(k.value) for k in c.keywords}
+        if set(byname) <= set(kw_names[len(c.args):]):
+            got = got + [byname.get(nm, "<missing %s>" % nm) for nm in kw_names[len(c.args):len(want)]]
     ctx.check(got == want, rule, fi, "%s passes %s to .%s in that order" % (fi.name, want, lib_call_suffix), witness=got, line=c.lineno)
     # verdict passes through: no swallowing handler
     swallowed = []
